@@ -67,8 +67,9 @@ def make_layer(rng, dims, param="raw"):
     return l, geo
 
 
-def per_window(l, geo, x, mode, weights=None):
-    """Reference: out[k][pos] = tree_k(window at pos of the zero-padded x), from kernel_pairs and the geometry only."""
+def per_window(l, geo, x, mode, weights=None, upper=None):
+    """Reference: out[k][pos] = tree_k(window at pos of the zero-padded x), from kernel_pairs and the geometry only.
+    upper: wiring of the levels above the first, [(left, right), ...] per level (default: neighbours 2j, 2j+1 - what the constructor builds)."""
     dims, n, pad, rf, s = geo["dims"], geo["in_dim"], geo["padding"], geo["rf"], geo["stride"]
     C, K, depth = geo["channels"], geo["kernels"], geo["depth"]
     outs = [(v + 2 * pad - r) // s + 1 for v, r in zip(n, geo["rfs"])]
@@ -86,7 +87,11 @@ def per_window(l, geo, x, mode, weights=None):
                 vb = xp[(rb[-1],) + tuple(st + r for st, r in zip(start, rb[:-1]))]
                 cur.append(node(weights, 0, g, k, va, vb, mode))
             for lev in range(1, depth + 1):
-                cur = [node(weights, lev, j, k, cur[2 * j], cur[2 * j + 1], mode) for j in range(len(cur) // 2)]
+                if upper is None:
+                    cur = [node(weights, lev, j, k, cur[2 * j], cur[2 * j + 1], mode) for j in range(len(cur) // 2)]
+                else:
+                    le, ri = upper[lev - 1]
+                    cur = [node(weights, lev, j, k, cur[le[j]], cur[ri[j]], mode) for j in range(len(le))]
             res[(k,) + pos] = cur[0]
     return res
 
